@@ -13,6 +13,7 @@ package server
 
 import (
 	"fmt"
+	"github.com/snower/slock/protocol"
 	"runtime"
 	"sync"
 	"testing"
@@ -289,6 +290,60 @@ func (w *vWorld) runParStep(nextId *int64, ops []vReq, sched []int, extraGates [
 	w.tr.Emit(map[string]interface{}{"e": "parend", "t": w.now})
 }
 
+// runFreeStep issues the requests of a phase from really concurrent goroutines (no gates, one start barrier): the only
+// engine step in which code OUTSIDE the gated yield points (database creation, connection set-up) races.  Replies are
+// recorded in the order the callbacks run, so the phases use requests whose verdict does not depend on that order
+// (no-wait locks of distinct LockIds).
+func (w *vWorld) runFreeStep(nextId *int64, ops []vReq) {
+	w.tr.Emit(map[string]interface{}{"e": "par", "n": len(ops), "t": w.now, "free": true})
+	type job struct {
+		id  int64
+		r   *vReq
+		c   *vConn
+		cmd *protocol.LockCommand
+	}
+	var jobs []job
+	for idx := range ops {
+		r := &ops[idx]
+		if r.Op != "lock" && r.Op != "unlock" {
+			continue
+		}
+		id := *nextId
+		*nextId++
+		w.tr.Emit(w.reqEvent(id, r))
+		jobs = append(jobs, job{id, r, w.conn(r.Conn), w.buildCommand(id, r)})
+	}
+	start := make(chan struct{})
+	var wg sync.WaitGroup
+	for _, j := range jobs {
+		wg.Add(1)
+		go func(j job) {
+			defer wg.Done()
+			<-start
+			// what the protocol front ends do: look the database up, create it when it is not there
+			db := w.slock.dbs[uint8(j.r.Db)]
+			if db == nil {
+				db = w.slock.GetOrNewDB(uint8(j.r.Db))
+			}
+			if !w.cfg.RealClock && db.currentTime != w.now {
+				// a database born in this phase starts on the virtual clock (every racer writes the same values)
+				db.currentTime = w.now
+				db.checkTimeoutTime = w.now + 1
+				db.checkExpriedTime = w.now + 1
+			}
+			if j.cmd.CommandType == protocol.COMMAND_LOCK {
+				_ = db.Lock(j.c, j.cmd, 0)
+			} else {
+				_ = db.UnLock(j.c, j.cmd, 0)
+			}
+			w.tr.Emit(map[string]interface{}{"e": "ret", "id": j.id, "t": w.sec(), "ms": w.ms()})
+		}(j)
+	}
+	close(start)
+	wg.Wait()
+	w.tr.Emit(map[string]interface{}{"e": "parend", "t": w.now})
+}
+
 type vScenarioC struct {
 	Name     string    `json:"name"`
 	Cfg      vWorldCfg `json:"cfg"`
@@ -303,6 +358,7 @@ type vStepC struct {
 	Actors map[string]vReq `json:"actors"`
 	Script []string        `json:"script"`
 	Gates  []string        `json:"gates"`
+	Free   bool            `json:"free"`
 }
 
 // runScript executes a TLC-generated schedule of LockEngineFine: every script element names the actor whose
@@ -447,7 +503,11 @@ func TestVerifC(t *testing.T) {
 		for j := range sc.Steps {
 			st := &sc.Steps[j]
 			if st.Op == "par" {
-				w.runParStep(&nextId, st.Ops, st.Sched, st.Gates)
+				if st.Free {
+					w.runFreeStep(&nextId, st.Ops)
+				} else {
+					w.runParStep(&nextId, st.Ops, st.Sched, st.Gates)
+				}
 				w.tr.Emit(w.Snapshot())
 			} else if st.Op == "fine" {
 				w.runScript(&nextId, st.Actors, st.Script)
